@@ -14,7 +14,7 @@ use serde_json::{json, Value};
 pub static DEF: PropDef = PropDef {
     id: "C07",
     level: "exploration",
-    total: |t| t.pick(64, 1600),
+    total: |t| t.pick(1024, 32000),
     run,
     rule: "random operation sequences (new from 5 source types incl. empty, header, concatenate incl. with own clone, slice by all six range forms with endpoints at 0/1/chunk boundary±1/len-1/len, cut, remove_front, clone, drop; out-of-range arguments expected to panic) over a pool of <=8 messages compared against Vec<u8> after every step; plus exhaustive enumeration of all op sequences up to depth 3 (quick) / 4 (thorough) from every 2-chunk start of <=3+3 bytes. Non-trivial = the sequence created >=2 aliases of one buffer (clone/cut/self-concatenate) AND performed a cut/slice/remove_front exactly on an interior chunk boundary; distinct by hash of the op sequence.",
     assumptions: &[
